@@ -196,6 +196,16 @@ func c09Functions() (fns []*c09Fn, denied []string) {
 // c09Reduced: the pool objects used for the fixed table of 3-tuples (indices into c09Pool).
 var c09Reduced = c09PoolIndex("nil", "1", "-1", "\"a\"", "sym", ":a", "#\\a", "(1 2 3)", "#(1 2 3)", "lambda")
 
+// c09Promoted: cells found by seeded tuples on the unchanged tree whose fault no cell of the fixed
+// tables reaches (DESIGN §5: interaction defects are promoted to cells of the sweep table before
+// they are recorded). Function key followed by pool object names; part of the tuple table in
+// both tiers.
+var c09Promoted = [][]string{
+	// a non-symbol where a keyword is expected, behind the bag and the stream argument
+	{"bag:bag-write", "bag", "nil", "1", "1"},
+	{"bag:bag-write", "bag", "t", "1.5", "condition"},
+}
+
 func c09PoolIndex(names ...string) []int {
 	var out []int
 	for _, n := range names {
